@@ -8,6 +8,8 @@ list.  Ops name action identities, never positions, so shrunk lists stay meaning
 action is not in flight is skipped deterministically.
 """
 import copy
+import hashlib
+import json
 import signal
 
 from orquesta import conducting
@@ -285,6 +287,10 @@ class World(object):
         if insp and self.o.get("expect_clean", True):
             raise GeneratorError("generated definition is not inspection-clean: %s" % canon(insp)[:400])
         self.c = conducting.WorkflowConductor(self.spec, inputs=copy.deepcopy(self.p.get("inputs") or {}))
+        if self.o.get("chain"):
+            g = self.c.graph.serialize()
+            self.chain = hashlib.sha256((json.dumps(g, sort_keys=False, default=str) +
+                                         json.dumps(insp, sort_keys=False, default=str)).encode()).hexdigest()
         if self.o.get("twin"):
             tspec = native_specs.WorkflowSpec(copy.deepcopy(self.definition))
             self.twin = conducting.WorkflowConductor(tspec, inputs=copy.deepcopy(self.p.get("inputs") or {}))
@@ -332,6 +338,8 @@ class World(object):
         st_before = self.status
         tasks = self.call("get_next_tasks")
         self.after_call("get_next_tasks")
+        if self.o.get("chain"):
+            self.chain = hashlib.sha256((self.chain + json.dumps(norm_tasks(tasks), sort_keys=False, default=str)).encode()).hexdigest()
         if self.o.get("poll_idem"):
             snap1 = self.snap
             tasks2 = self.call("get_next_tasks")
@@ -351,9 +359,16 @@ class World(object):
             if extra:
                 self.report("C11", "no_offer_after_error", "tasks %r offered after an expression error failed the "
                             "workflow" % (extra,))
+        if self.expect_release is not None:
+            exp, self.expect_release = self.expect_release, None
+            got = sorted(t["id"] for t in tasks)
+            if self.status in ("running", "resuming") and got != exp and not self.ledger.runtime_errors:
+                self.report("C09", "resume_releases_held", "first dispatch after resume offered %r, held back were %r"
+                            % (got, exp))
         n_started = 0
         for t in tasks:
             n_started += self.start_task(t, st_before)
+        self.finish_if_completed()
         self.check_state("dispatch")
         if not tasks:
             self.bump("dispatch_empty")
@@ -740,6 +755,18 @@ class World(object):
             if wfb in ("paused", "pausing") and self.status not in ("paused", "pausing"):
                 self.pause_req = False
                 self.bump("fault_resume")
+                # work that was held back while pausing / paused and must now be released
+                L = self.ledger
+                held = sorted(c.task for c in L.open_credits() if not c.void)
+                for x in L.execs:
+                    it = x.items
+                    if it is not None and x.state == "running" and it.get("n") and len(it["offered"]) < it["n"] \
+                            and not any(s != "succeeded" for s in it["done"].values()):
+                        held.append(x.task)
+                self.held_back = len(held)
+                self.expect_release = sorted(held) if (wfb == "paused" and self.status in ("running", "resuming")) else None
+                if held:
+                    self.bump("probe_resume_with_held_tasks")
                 for x in self.ledger.execs:
                     if x.items is not None and x.state == "running":
                         x.items["stopped"] = False
@@ -809,6 +836,9 @@ class World(object):
         self.prev_staged_ids = set((s["id"], s["route"]) for s in prev["state"]["staged"]) if prev else None
         snap = self.c.serialize()
         self.snap = snap
+        if self.o.get("chain"):
+            # insertion order is kept on purpose: "identical persisted state" is byte-wise
+            self.chain = hashlib.sha256((self.chain + tag + json.dumps(snap, sort_keys=False, default=str)).encode()).hexdigest()
         st = snap["state"]
         new_status = st["status"]
         if self.twin is not None:
@@ -831,6 +861,8 @@ class World(object):
                 self.terminal_seen = new_status
         if new_status != self.status:
             self.status_trace.append(new_status)
+            if new_status == "failed" and self.status == "pausing":
+                self.failed_while_pausing = True
         self.status = new_status
         if new_status in TERMINAL_WF and self.terminal_seen is None and tag != "rerun":
             self.terminal_seen = new_status
@@ -953,6 +985,10 @@ class World(object):
 
     fault_checked = False
     last_request = None
+    expect_release = None
+    held_back = 0
+    failed_while_pausing = False
+    chain = ""
 
     def check_fault_effect(self):
         """C11 recorded / fails for an injected k-th evaluation fault."""
